@@ -114,3 +114,10 @@ META['C13'] = dict(
     note='Trusted: stmxcsr/ldmxcsr around the call; x87 control word is not part of the property on x86-64 (SSE arithmetic only).',
     technique='property-based testing (rapidcheck): metamorphic relation (digest invariant under entry FP state) + state-restoration invariant',
 )
+
+META['C15'] = dict(
+    text='Exhaustive fault enumeration: every creating call x every supported flag combination x huge-page behaviour x every index k of a failing request (333 plans incl. the fault-free ones, each in its own child process), '
+         'with heap / mapping accounting by link-time interposition; plus generated multi-fault and create/use/release cycle sequences (160 quick / 20k thorough). The plan space is finite and covered completely on every run.',
+    note='Trusted: interposition sees posix_memalign, operator new and mmap/munmap of the statically linked library; libstdc++\'s exception-object malloc is out of reach; huge pages are simulated with the munmap rule measured on this kernel.',
+    technique='exhaustive fault-injection enumeration + property-based testing (rapidcheck) of fault/cycle sequences with leak-accounting invariant',
+)
